@@ -79,17 +79,22 @@ type Clause struct {
 }
 
 type FuncContract struct {
-	Key        string
-	Requires   []*Clause
-	Ensures    []*Clause
-	Lets       map[string]*Expr
-	LetOrder   []string
-	Assigns    []string
-	HasAssigns bool
-	Loops      map[int]*LoopContract
-	Trusted    string
-	Line       int
-	Pure       bool
+	Key          string
+	Requires     []*Clause
+	Ensures      []*Clause
+	Lets         map[string]*Expr
+	LetOrder     []string
+	Assigns      []string
+	HasAssigns   bool
+	Loops        map[int]*LoopContract
+	Trusted      string
+	Line         int
+	Pure         bool
+	Config       []string
+	Covers       string
+	NoLoops      bool
+	CallsOnly    []string
+	HasCallsOnly bool
 }
 
 type LoopContract struct {
@@ -102,6 +107,16 @@ type ContractFile struct {
 	Funcs  map[string]*FuncContract
 	Order  []string
 	Lemmas []*Clause
+	Pkg    *PkgContract
+}
+
+// PkgContract: package-level frame (C12 F1, C17 P4).
+type PkgContract struct {
+	ReadOnly     map[string]bool     // package-level variables that may be read (never written) after init
+	InitOnly     map[string]bool     // functions that run at init / configuration time only
+	FieldWriters map[string][]string // Type.field -> functions allowed to store to it
+	ReadOnlyUses map[string]bool     // callees a read-only global may be passed to
+	Line         int
 }
 
 func parseContractFile(path string) (*ContractFile, error) {
@@ -117,6 +132,7 @@ func parseContractFile(path string) (*ContractFile, error) {
 	lineNo := 0
 	var pending string
 	var pendingLine int
+	inPkg := false
 	for sc.Scan() {
 		lineNo++
 		line := strings.TrimSpace(sc.Text())
@@ -139,7 +155,20 @@ func parseContractFile(path string) (*ContractFile, error) {
 		pending = ""
 		ln := pendingLine
 		word, rest := splitWord(body)
+		if inPkg && word != "func" && word != "lemma" && word != "package" {
+			if err := cf.Pkg.add(word, rest); err != nil {
+				return nil, fmt.Errorf("%s:%d: %v", path, ln, err)
+			}
+			continue
+		}
+		inPkg = false
 		switch word {
+		case "package":
+			if cf.Pkg == nil {
+				cf.Pkg = &PkgContract{ReadOnly: map[string]bool{}, InitOnly: map[string]bool{}, FieldWriters: map[string][]string{}, ReadOnlyUses: map[string]bool{}, Line: ln}
+			}
+			inPkg = true
+			cur = nil
 		case "func":
 			cur = &FuncContract{Key: strings.TrimSpace(rest), Lets: map[string]*Expr{}, Loops: map[int]*LoopContract{}, Line: ln}
 			if _, dup := cf.Funcs[cur.Key]; dup {
@@ -205,6 +234,23 @@ func (fc *FuncContract) addClause(word, rest string, ln int) error {
 				fc.Assigns = append(fc.Assigns, l)
 			}
 		}
+	case "config":
+		for _, l := range strings.Split(rest, ",") {
+			if l = strings.TrimSpace(l); l != "" {
+				fc.Config = append(fc.Config, l)
+			}
+		}
+	case "noloops":
+		fc.NoLoops = true
+	case "callsonly":
+		fc.HasCallsOnly = true
+		for _, l := range strings.Split(rest, ",") {
+			if l = strings.TrimSpace(l); l != "" && l != "nothing" {
+				fc.CallsOnly = append(fc.CallsOnly, l)
+			}
+		}
+	case "covers":
+		fc.Covers = strings.TrimSpace(rest)
 	case "pure":
 		fc.Pure = true
 		fc.HasAssigns = true
@@ -563,4 +609,39 @@ func (p *parser) primary() (*Expr, error) {
 		}
 	}
 	return nil, fmt.Errorf("unexpected %q at %d", t.text, t.pos)
+}
+
+func (pc *PkgContract) add(word, rest string) error {
+	items := func() []string {
+		var out []string
+		for _, l := range strings.Split(rest, ",") {
+			if l = strings.TrimSpace(l); l != "" {
+				out = append(out, l)
+			}
+		}
+		return out
+	}
+	switch word {
+	case "readonly":
+		for _, i := range items() {
+			pc.ReadOnly[i] = true
+		}
+	case "initonly":
+		for _, i := range items() {
+			pc.InitOnly[i] = true
+		}
+	case "readonlyuse":
+		for _, i := range items() {
+			pc.ReadOnlyUses[i] = true
+		}
+	case "fieldwriters":
+		f := strings.Fields(rest)
+		if len(f) < 2 {
+			return fmt.Errorf("fieldwriters Type.field fn...")
+		}
+		pc.FieldWriters[f[0]] = append(pc.FieldWriters[f[0]], f[1:]...)
+	default:
+		return fmt.Errorf("unknown package clause %q", word)
+	}
+	return nil
 }
